@@ -173,7 +173,7 @@ pub fn judge_with<A: Attr>(rep: &mut Report, p: &[[f32; 3]; 3], a: &[[f32; MAXC]
                 // few ulps of their largest value, and the quotient amplifies
                 // that by (largest 1/w)/(1/w here) — what remains when the
                 // attribute is (nearly) constant and 0.5 % of its range is ≈ 0
-                let tol_strict = 0.005 * arange[c] + 1e-5 * amax[c] * (zhi.abs().max(zlo.abs()) / ze.abs()).clamp(1.0, 100.0) + 0.001 * g + 1e-30;
+                let tol_strict = 0.005 * arange[c] + 2e-5 * amax[c] * (zhi.abs().max(zlo.abs()) / ze.abs()).clamp(1.0, 100.0) + 0.001 * g + 1e-30;
                 let a_in_max = av.iter().fold(0.0f64, |m, x| m.max(x.abs()));
                 let tol = if large { tol_strict + pos_slack * g + 1.2e-7 * extent * (a_in_max + ae.abs() * zabs) / ze.abs() } else { tol_strict };
                 let err = (f.var[c] as f64 - ae).abs();
